@@ -755,4 +755,151 @@ theorem readLine_set_sized (cfg : Cfg) (hsz : ∀ q, cfg.bodyOK q = true → siz
       exact readLine_set5_sized cfg hsz p g w (Base64.decChar_lt hd)
     · exact readLine_set_guarded cfg p g i v hi h10 h13 hh (Or.inr h5)
 
+/-! #### CR: a dropped character -/
+
+/-- `binary.Uvarint` looks at its first `n` bytes only -/
+theorem uvarintAux_prefix : ∀ (r : Bytes) (i x s v n : Nat), i ≤ 10 → uvarintAux i x s r = some (v, n) →
+    ∀ r' : Bytes, r'.take (n - i) = r.take (n - i) → uvarintAux i x s r' = some (v, n) := by
+  intro r
+  induction r with
+  | nil => intro i x s v n _ h; simp [uvarintAux] at h
+  | cons b rest ih =>
+    intro i x s v n hi10 h r' hr
+    obtain ⟨_, _, hn1, _, _, _⟩ := uvarintAux_shift (b :: rest) i x s v n hi10 h
+    have hpos : n - i = (n - i - 1) + 1 := by omega
+    rw [hpos, List.take_succ_cons] at hr
+    match r', hr with
+    | [], hr => simp at hr
+    | b' :: rest', hr =>
+      rw [List.take_succ_cons, List.cons.injEq] at hr
+      obtain ⟨rfl, hr2⟩ := hr
+      unfold uvarintAux at h ⊢
+      split at h
+      · cases h
+      · rename_i hi
+        simp only [hi, Bool.false_eq_true, if_false]
+        split at h
+        · rename_i hb
+          simp only [hb, if_true]
+          exact h
+        · rename_i hb
+          simp only [hb, if_false]
+          have hi' : i ≠ 10 := by simpa using hi
+          refine ih (i + 1) _ (s + 7) v n (by omega) h rest' ?_
+          have : n - (i + 1) = n - i - 1 := by omega
+          rw [this]; exact hr2
+
+theorem encode_length (B : Bytes) : (Base64.encode B).length = (4 * B.length + 2) / 3 := by
+  induction B using Base64.encode.induct with
+  | case1 a b c rest ih => simp only [Base64.encode, List.length_cons, ih]; omega
+  | case2 a b => simp [Base64.encode]
+  | case3 a => simp [Base64.encode]
+  | case4 => simp [Base64.encode]
+
+theorem uvarint_prefix (p p' : Bytes) (v n : Nat) (h : uvarint p = some (v, n))
+    (hp : p'.take n = p.take n) : uvarint p' = some (v, n) :=
+  uvarintAux_prefix p 0 0 0 v n (by omega) h p' (by simpa using hp)
+
+/-- A character of a data line replaced by CR, far enough into the line that the dropped
+character lies behind the payload's length prefix: the decoder silently drops the CR,
+the payload comes out one byte short but still announces its old length — amino's
+length-prefix check fails, so the line is reported as corruption. -/
+theorem readLine_set_cr (cfg : Cfg) (hsz : ∀ q, cfg.bodyOK q = true → sizedOK q = true)
+    (p : Bytes) (g : GoodPayload cfg p) (i : Nat) (hi : i < (msgText p).length)
+    (v n : Nat) (hu : uvarint p = some (v, n)) (hpos : 4 + n ≤ 3 * (i / 4)) :
+    readLine cfg ((msgText p).set i 13) = .corrupt := by
+  have hi8 : 8 ≤ i := by omega
+  -- the first character is untouched
+  have hhead : ((msgText p).set i 13).head? ≠ some 35 := by
+    have h0 := msgText_head_ne_hash p
+    match hm : msgText p, msgText_ne_nil p with
+    | c0 :: rest, _ =>
+      rw [hm] at h0
+      match i, hi8 with
+      | k + 1, _ => simpa using h0
+  -- the decoder sees the line with that character removed
+  have hfil : Base64.decode ((msgText p).set i 13) = Base64.decodeGroups ((msgText p).eraseIdx i) := by
+    unfold Base64.decode
+    rw [Base64.filter_set_cr _ i (fun c hc => by
+      obtain ⟨m, hm, rfl⟩ := msgText_alpha p c hc
+      exact Base64.isSkipped_encChar hm) hi]
+  cases hdec : Base64.decodeGroups ((msgText p).eraseIdx i) with
+  | none => exact readLine_corrupt_of_decode_none cfg _ hhead (hfil.trans hdec)
+  | some B' =>
+    -- split both texts at the last group boundary before position i
+    have hq : 4 * (i / 4) ≤ (msgText p).length := by omega
+    have hA : ((msgText p).take (4 * (i / 4))).length = 4 * (i / 4) := List.length_take_of_le hq
+    have hL : (msgText p).take (4 * (i / 4)) ++ (msgText p).drop (4 * (i / 4)) = msgText p :=
+      List.take_append_drop _ _
+    have hfull : Base64.decodeGroups ((msgText p).take (4 * (i / 4)) ++ (msgText p).drop (4 * (i / 4)))
+        = some (be32 (Crc32c.crc32c p) ++ p) := by rw [hL]; exact Base64.decodeGroups_encode _
+    obtain ⟨dA, dT, e1, _, e3, e4⟩ := Base64.decodeGroups_split (i / 4) _ _ _ hA hfull
+    have herase : (msgText p).eraseIdx i
+        = (msgText p).take (4 * (i / 4)) ++ ((msgText p).drop (4 * (i / 4))).eraseIdx (i - 4 * (i / 4)) := by
+      conv => lhs; rw [← hL]
+      rw [List.eraseIdx_append_of_length_le (by rw [hA]; omega), hA]
+    rw [herase] at hdec
+    obtain ⟨dA', dT', e1', _, e3', _⟩ := Base64.decodeGroups_split (i / 4) _ _ _ hA hdec
+    rw [e1] at e1'
+    cases e1'
+    -- lengths
+    have hlenB' : B'.length = ((msgText p).length - 1) * 3 / 4 := by
+      have := Base64.decodeGroups_length _ _ hdec
+      rw [← herase, List.length_eraseIdx_of_lt hi] at this
+      exact this
+    have hlenL : (msgText p).length = (4 * (p.length + 4) + 2) / 3 := by
+      have := encode_length (be32 (Crc32c.crc32c p) ++ p)
+      have e : (be32 (Crc32c.crc32c p) ++ p).length = p.length + 4 := by simp [be32]
+      rw [e] at this
+      exact this
+    have hplen : 1 ≤ p.length := by
+      have := g.nonempty
+      cases p with
+      | nil => exact absurd rfl this
+      | cons _ _ => simp
+    have hB'len : B'.length = p.length + 3 := by omega
+    -- B' starts with the stored CRC and a payload that agrees with p on its first 3*(i/4)-4 bytes
+    have htake : B'.take (3 * (i / 4)) = (be32 (Crc32c.crc32c p) ++ p).take (3 * (i / 4)) := by
+      rw [e3, e3', List.take_append_of_le_length (by omega), List.take_append_of_le_length (by omega)]
+    obtain ⟨a, b, c, d, hform⟩ := exists_four (l := B') (by omega)
+    have hk : 3 * (i / 4) = (3 * (i / 4) - 4) + 4 := by omega
+    rw [hform, hk] at htake
+    simp only [be32, List.cons_append, List.nil_append, List.take_succ_cons, List.cons.injEq] at htake
+    obtain ⟨rfl, rfl, rfl, rfl, htake'⟩ := htake
+    have hp'len : (B'.drop 4).length = p.length - 1 := by simp [hB'len]
+    have hdecode : Base64.decode ((msgText p).set i 13) = some B' := by
+      rw [hfil, herase]; exact hdec
+    rw [hform] at hdecode
+    rw [readLine_of_decode cfg _ _ _ _ _ _ hhead hdecode]
+    split
+    · rfl
+    · split
+      · rfl
+      · split
+        · rfl
+        · split
+          · rfl
+          · rename_i hbody
+            exfalso
+            have hb1 : cfg.bodyOK (B'.drop 4) = true := by simpa using hbody
+            have hs1 := hsz _ hb1
+            have hs2 := hsz _ g.body
+            obtain ⟨_, _, _, _, hn, _⟩ := uvarintAux_shift p 0 0 0 v n (by omega) hu
+            have hn' : n ≤ p.length := by simpa using hn
+            have hpre : (B'.drop 4).take n = p.take n := by
+              have := congrArg (List.take n) htake'
+              rw [List.take_take, List.take_take, Nat.min_eq_left (by omega)] at this
+              exact this
+            have hu' := uvarint_prefix p (B'.drop 4) v n hu hpre
+            have hnle : n ≤ (B'.drop 4).length := by
+              have := congrArg List.length hpre
+              simp only [List.length_take] at this
+              omega
+            unfold sizedOK at hs1 hs2
+            rw [hu'] at hs1
+            rw [hu] at hs2
+            simp only [beq_iff_eq] at hs1 hs2
+            omega
+
+
 end GnoVerif.C38
